@@ -81,6 +81,22 @@ fn main() {
     let seed: u64 = a.get(1).and_then(|s| s.parse().ok()).unwrap_or(1);
     let per_type: u64 = a.get(2).and_then(|s| s.parse().ok()).unwrap_or(50);
     std::panic::set_hook(Box::new(|_| {}));
+    if a.get(1).map(|s| s == "corpus").unwrap_or(false) {
+        // corpus mode: lines {"app":..,"ty":..,"hb":hex} - schema-valid encodings offered to Rust again
+        let text = std::fs::read_to_string(&a[2]).unwrap_or_default();
+        for line in text.lines().filter(|l| l.starts_with('{')) {
+            let j: serde_json::Value = match serde_json::from_str(line) { Ok(j) => j, Err(_) => continue };
+            let (app, ty, hbs) = (j["app"].as_str().unwrap_or(""), j["ty"].as_str().unwrap_or(""), j["hb"].as_str().unwrap_or(""));
+            let hb: Vec<u8> = (0..hbs.len() / 2).filter_map(|i| u8::from_str_radix(&hbs[2 * i..2 * i + 2], 16).ok()).collect();
+            let types = table::types_of(app);
+            let Some(te) = types.iter().find(|t| t.name == ty) else { println!("{{\"d\":\"unbound\",\"app\":{},\"ty\":{}}}", json_str(app), json_str(ty)); continue; };
+            let acc = (te.accept)(&hb);
+            println!("{{\"d\":\"a\",\"app\":{},\"ty\":{},\"v\":{},\"hb\":\"{}\",\"acc\":{},\"strict\":{},\"reser\":{},\"err\":{},\"corpus\":true}}",
+                json_str(app), json_str(ty), json_str(j["note"].as_str().unwrap_or("")), hex(&hb), acc.bridge_ok, acc.strict_ok,
+                match &acc.reser { Some(b) => format!("\"{}\"", hex(b)), None => "null".into() }, json_str(&acc.err));
+        }
+        return;
+    }
     let mut r = Rng::new(seed);
     for (app, reg) in apps::registries() {
         let reg = match reg { Ok(x) => x, Err(e) => { println!("{{\"d\":\"err\",\"app\":{},\"error\":{}}}", json_str(app), json_str(&e)); continue; } };
